@@ -4,6 +4,7 @@ package main
 // typestate / block rotation / matcher guards (C01, C17).
 
 import (
+	"os"
 	"fmt"
 	"go/token"
 	"go/types"
@@ -383,7 +384,13 @@ func ruleXZWriter(c *Ctx, r *Report, prefix string) {
 	fClosed := c.Field("", "Writer.closed")
 	write, closeF := c.Func("", "Writer.Write"), c.Func("", "Writer.Close")
 	nbw := c.Func("", "Writer.newBlockWriter")
-	cbw := c.Func("", "Writer.closeBlockWriter")
+	// closeBlockWriter may have been folded into its two callers (Write, Close): then bw.Close followed
+	// by the index append is read as the step it was (cbwIn)
+	cbw := c.funcQuiet("", "Writer.closeBlockWriter")
+	cbwIn := cbw == nil
+	if !cbwIn {
+		cbw = c.Func("", "Writer.closeBlockWriter")
+	}
 	cfgNBW := c.Func("", "WriterConfig.newBlockWriter")
 	bwWrite, bwClose := c.Func("", "blockWriter.Write"), c.Func("", "blockWriter.Close")
 	bwRecord := c.Func("", "blockWriter.record")
@@ -392,7 +399,7 @@ func ruleXZWriter(c *Ctx, r *Report, prefix string) {
 	fIndex := c.Field("", "Writer.index")
 	fBS, fBn := c.Field("", "blockWriter.blockSize"), c.Field("", "blockWriter.n")
 	writeIndex := c.Func("", "writeIndex")
-	if fClosed == nil || write == nil || closeF == nil || nbw == nil || cbw == nil || cfgNBW == nil || bwWrite == nil || bwClose == nil ||
+	if fClosed == nil || write == nil || closeF == nil || nbw == nil || (cbw == nil && !cbwIn) || cfgNBW == nil || bwWrite == nil || bwClose == nil ||
 		bwRecord == nil || errNoSpace == nil || fNewHash == nil || fIndex == nil || fBS == nil || fBn == nil || writeIndex == nil {
 		return
 	}
@@ -454,6 +461,9 @@ func ruleXZWriter(c *Ctx, r *Report, prefix string) {
 		nNil := 0
 		for _, sp := range paths {
 			l := sp.Labels()
+			if cbwIn {
+				l = collapseCloseBlock(l)
+			}
 			if len(l) > 0 && l[0] != "closed=true" {
 				r.Fail(rule, key, c.Pos(closeF.Pos()), fmt.Sprintf("Close performs %q before marking the writer closed", l[0]), sp.Trace...)
 				bad = true
@@ -529,12 +539,17 @@ func ruleXZWriter(c *Ctx, r *Report, prefix string) {
 		}
 		spec.Event = func(w *Walker, p *PState, ins ssa.Instruction) string {
 			if call, ok := ins.(*ssa.Call); ok {
+				if !cbwIn && call.Call.StaticCallee() == cbw {
+					return "closeBlock"
+				}
 				switch call.Call.StaticCallee() {
 				case bwWrite:
 					bwCall = call
 					return "bw.Write"
-				case cbw:
-					return "closeBlock"
+				case bwClose:
+					if cbwIn {
+						return "closeBlock"
+					}
 				case nbw:
 					return "newBlock"
 				}
@@ -576,9 +591,22 @@ func ruleXZWriter(c *Ctx, r *Report, prefix string) {
 			r.Undecided(rule, key, c.Pos(write.Pos()), "no rotation path found")
 		}
 		// closeBlockWriter: record appended after a successful bw.Close
-		{
+		recHomes := []*ssa.Function{cbw}
+		if cbwIn {
+			recHomes = []*ssa.Function{write, closeF}
+		}
+		for _, home := range recHomes {
+			home := home
 			var cl *ssa.Call
-			spec := SeqSpec{Fn: cbw}
+			spec := SeqSpec{Fn: home}
+			if cbwIn {
+				spec.NoMerge = home == write
+				spec.Assume = func(w *Walker, p *PState, ins ssa.Instruction) {
+					if u, ok := loadOfField(ins, fClosed); ok {
+						setBoolFact(p, p.Resolve(u), false)
+					}
+				}
+			}
 			spec.Event = func(w *Walker, p *PState, ins ssa.Instruction) string {
 				if call, ok := callTo(ins, bwClose); ok {
 					cl = call
@@ -586,7 +614,7 @@ func ruleXZWriter(c *Ctx, r *Report, prefix string) {
 				}
 				if st, ok := storeToField(ins, fIndex); ok {
 					if ap, ok := st.Val.(*ssa.Call); ok {
-						if bi, ok := ap.Call.Value.(*ssa.Builtin); ok && bi.Name() == "append" && (appendOfCall(ap.Call.Args[1], bwRecord) || bwRecord == cbw && appendOfType(ap.Call.Args[1], "record")) {
+						if bi, ok := ap.Call.Value.(*ssa.Builtin); ok && bi.Name() == "append" && (appendOfCall(ap.Call.Args[1], bwRecord) || bwRecord == home && appendOfType(ap.Call.Args[1], "record")) {
 							return "index+=record"
 						}
 					}
@@ -598,24 +626,53 @@ func ruleXZWriter(c *Ctx, r *Report, prefix string) {
 			ok := len(paths) > 0
 			nNil := 0
 			for _, sp := range paths {
+				l := sp.Labels()
+				if os.Getenv("XZV_TRACE") != "" {
+					fmt.Printf("REC %s labels=%v errnil=%v errnonnil=%v panic=%v\n", home.Name(), l, sp.ErrNil, sp.ErrNonNil, sp.Panic)
+				}
+				if cbwIn {
+					// every append directly follows a bw.Close; every bw.Close is followed by the append
+					// unless the path ends there with an error
+					for i, x := range l {
+						switch x {
+						case "index+=record":
+							if i == 0 || l[i-1] != "bw.Close" {
+								ok = false
+							}
+						case "bw.Close":
+							if i+1 < len(l) && l[i+1] != "index+=record" {
+								ok = false
+							}
+							if i+1 == len(l) && !sp.ErrNonNil {
+								ok = false
+							}
+						case "index=?":
+							ok = false
+						}
+					}
+					if sp.Has("index+=record") {
+						nNil++
+					}
+					continue
+				}
 				if sp.ErrNil {
 					nNil++
-					if !eqLabels(sp.Labels(), []string{"bw.Close", "index+=record"}) || cl == nil || !sp.P.IsNil(cl) {
+					if !eqLabels(l, []string{"bw.Close", "index+=record"}) || cl == nil || !sp.P.IsNil(cl) {
 						ok = false
 					}
 				} else if sp.Has("index+=record") {
 					ok = false
 				}
 			}
-			r.Check(ok && nNil > 0, rule, "rotation:record:"+FnName(cbw), c.Pos(cbw.Pos()), "the block's record is appended to the index exactly after a successful bw.Close",
-				"closeBlockWriter does not append the block's record to the index after (and only after) a successful blockWriter.Close")
+			r.Check(ok && nNil > 0, rule, "rotation:record:"+FnName(home), c.Pos(home.Pos()), "the block's record is appended to the index exactly after a successful bw.Close",
+				"the block's record is not appended to the index after (and only after) a successful blockWriter.Close")
 		}
 		// blockWriter.Close is called only from closeBlockWriter
 		var callers []string
 		for _, fn := range c.ModFuncs("") {
 			for _, b := range theCtx.GB(fn) {
 				for _, ins := range b.Instrs {
-					if isCallTo(ins, bwClose) && fn != cbw {
+					if isCallTo(ins, bwClose) && fn != cbw && !(cbwIn && (fn == write || fn == closeF)) {
 						callers = append(callers, FnName(fn))
 					}
 				}
@@ -666,4 +723,25 @@ func appendOfType(v ssa.Value, typeName string) bool {
 		}
 	}
 	return false
+}
+
+// collapseCloseBlock: with closeBlockWriter folded into its callers the step "close the block and
+// record it" appears as blockWriter.Close [record] store.
+func collapseCloseBlock(l []string) []string {
+	var out []string
+	for i := 0; i < len(l); i++ {
+		if l[i] == "call:(*xz.blockWriter).Close" {
+			j := i + 1
+			if j < len(l) && l[j] == "call:(*xz.blockWriter).record" {
+				j++
+			}
+			if j < len(l) && l[j] == "store" {
+				out = append(out, "call:(*xz.Writer).closeBlockWriter")
+				i = j
+				continue
+			}
+		}
+		out = append(out, l[i])
+	}
+	return out
 }
